@@ -347,3 +347,21 @@ Proof.
   exists te, e, ms. split; [reflexivity|]. split; [apply Forall_forall; rewrite forallb_forall in Ec; exact Ec|].
   split; [exact C|]. split; [exact V|]. split; [exact E2|]. repeat split.
 Qed.
+
+Theorem run_inv_full p given s r : run p given s = Ok r ->
+  exists te e ms,
+    chk_vars [] (pvars p) = Some te /\ Forall (fun st => chk_stmt te st = true) (pstmts p) /\
+    cons_env te e /\ env_valid e /\
+    exec_stmts e (pstmts p) (init_state (rinit r)) = Ok ms /\
+    rposts r = mposts ms /\ rbal r = mbal ms /\ rsaved r = msaved ms /\ rtx r = mtx ms /\ racc r = macc ms.
+Proof.
+  unfold run. destruct (check p) eqn:Ec; [|discriminate]. simpl.
+  destruct (set_vars (pvars p) given && no_extraneous (pvars p) given) eqn:Es; [|discriminate]. simpl.
+  apply andb_prop in Es. destruct Es as [Es _].
+  intros H. dobind H x0 E0. destruct x0 as [e0 bv]. dobind H x1 E1. destruct x1 as [e b0]. dobind H ms E2. inv H. simpl.
+  unfold check in Ec. destruct (pstmts p) as [|s0 l0] eqn:Est; [discriminate|].
+  destruct (chk_vars [] (pvars p)) as [te|] eqn:Ek; [|discriminate].
+  destruct (resolve_env _ _ _ _ _ _ _ _ Ek Es E0 E1) as [C V].
+  exists te, e, ms. split; [reflexivity|]. split; [apply Forall_forall; rewrite forallb_forall in Ec; exact Ec|].
+  split; [exact C|]. split; [exact V|]. split; [exact E2|]. repeat split.
+Qed.
